@@ -154,6 +154,10 @@ func reference(c *SWCase) (out point, inDomain bool, why string) {
 			if res.isInf() {
 				return inf(), false, "JointScalarMulBase: result is infinity without complete arithmetic"
 			}
+			if tinyGLVScalar(cv, ks[0]) || tinyGLVScalar(cv, ks[1]) {
+				// the incomplete Shamir/GLV accumulation meets its own table entries: not asserted
+				return inf(), false, "JointScalarMulBase: scalar with tiny GLV sub-scalars without complete arithmetic (incomplete accumulation, not asserted)"
+			}
 		}
 		return res, true, ""
 	case opMSM:
@@ -211,6 +215,11 @@ func reference(c *SWCase) (out point, inDomain bool, why string) {
 			}
 			if res.isInf() {
 				return inf(), false, "MultiScalarMul: result is infinity without complete arithmetic"
+			}
+			for _, k := range ks {
+				if len(ks) > 1 && tinyGLVScalar(cv, k) {
+					return inf(), false, "MultiScalarMul: scalar with tiny GLV sub-scalars without complete arithmetic (incomplete accumulation, not asserted)"
+				}
 			}
 		}
 		return res, true, ""
